@@ -533,3 +533,179 @@ m('c15-duffy2d-sym-twin', ['C15'],
   (Q, "        y = 1 - scheme2d.points[1]\n        xy = x * y\n        weights = scheme2d.weights * x\n",
    "        y = 1 - scheme2d.points[1]\n        xy = y * x\n        weights = x * scheme2d.weights\n"),
   expect='silent')
+
+# ---- C01 / C11 / C12 --------------------------------------------------------
+m('c01-touch-mirror', ['C01', 'C12'],
+  (SL, """            if abs(h_x - h_y) < 1e-10:
+                return self.duff_log_log.mirror_x().integrate(f, a, b, c, d)""",
+   """            if abs(h_x - h_y) < 1e-10:
+                return self.duff_log_log.mirror_y().integrate(f, a, b, c, d)"""),
+  rule='R-apex')
+m('c01-seam-mirror', ['C01', 'C12'],
+  (SL, """            if abs(h_x - h_y) < 1e-10:
+                return self.duff_log_log.mirror_y().integrate(f, a, b, c, d)""",
+   """            if abs(h_x - h_y) < 1e-10:
+                return self.duff_log_log.mirror_x().integrate(f, a, b, c, d)"""),
+  rule='R-apex')
+m('c01-disjoint-mirror', ['C01', 'C12'],
+  (SL, """                return self.log_log.mirror_x().integrate(f, a, b, c, d)
+            else:
+                return self.log_log.mirror_y().integrate(f, a, b, c, d)""",
+   """                return self.log_log.mirror_y().integrate(f, a, b, c, d)
+            else:
+                return self.log_log.mirror_x().integrate(f, a, b, c, d)"""),
+  rule='R-apex')
+m('c01-gap-flipped', ['C01', 'C12'],
+  (SL, "            if c - b < self.gamma_len - d + a or not self.glue_space:",
+   "            if c - b > self.gamma_len - d + a or not self.glue_space:"),
+  rule='R-apex')
+m('c01-gap-wrong', ['C01', 'C12'],
+  (SL, "            if c - b < self.gamma_len - d + a or not self.glue_space:",
+   "            if c - b < self.gamma_len - d - a or not self.glue_space:"),
+  rule='R-apex')
+m('c01-identical-mirrored', ['C01'],
+  (SL, """        if a == c and b == d:
+            return self.duff_log_log.integrate(f, a, b, c, d)""",
+   """        if a == c and b == d:
+            return self.duff_log_log.mirror_x().integrate(f, a, b, c, d)"""),
+  rule='R-apex')
+m('c01-touch-split-hx', ['C01', 'C11'],
+  (SL, """                return self.duff_log_log.mirror_x().integrate(
+                    f, b - h_y, b, c, d) + self.__integrate(
+                        f, a, b - h_y, c, d)""",
+   """                return self.duff_log_log.mirror_x().integrate(
+                    f, b - h_y, b, c, d) + self.__integrate(
+                        f, a, b - h_x, c, d)"""), rule='R-partition')
+m('c01-touch-cond-flipped', ['C01', 'C11'],
+  (SL, """                return self.duff_log_log.mirror_x().integrate(f, a, b, c, d)
+            elif h_x > h_y:
+                return self.duff_log_log.mirror_x().integrate(
+                    f, b - h_y, b, c, d)""",
+   """                return self.duff_log_log.mirror_x().integrate(f, a, b, c, d)
+            elif h_x < h_y:
+                return self.duff_log_log.mirror_x().integrate(
+                    f, b - h_y, b, c, d)"""), rule='R-partition')
+m('c01-seam-split', ['C01', 'C11'],
+  (SL, """                    f, a, a + h_y, c, d) + self.__integrate(
+                        f, a + h_y, b, c, d)""",
+   """                    f, a, a + h_y, c, d) + self.__integrate(
+                        f, a + h_x, b, c, d)"""), rule='R-partition')
+m('c01-overlap-split', ['C01', 'C11'],
+  (SL, """        return self.__integrate(f, a, c, c, d) + self.__integrate(
+            f, c, b, c, d)""", """        return self.__integrate(f, a, c, a, d) + self.__integrate(
+            f, c, b, c, d)"""), rule='R-partition')
+m('c01-contained-dropped', ['C01', 'C11'],
+  (SL, """            return self.__integrate(f, a, b, c, b) + self.__integrate(
+                f, a, b, b, d)""", """            return self.__integrate(f, a, b, c, b)"""),
+  rule='R-partition')
+m('c01-longer-mirror', ['C01'],
+  (SL, """                f, a, d, c, d) + self.duff_log_log.mirror_y().integrate(
+                    f, d, b, c, d)""", """                f, a, d, c, d) + self.duff_log_log.mirror_x().integrate(
+                    f, d, b, c, d)"""), rule='R-apex')
+m('c01-bilform-no-swap-x', ['C01', 'C12'],
+  (SL, """            G_time_parametrized = lambda x: G_time(
+                gamma_test(x[1]) - gamma_trial(x[0]))""",
+   """            G_time_parametrized = lambda x: G_time(
+                gamma_test(x[0]) - gamma_trial(x[1]))"""), rule='R-binding')
+m('c01-bilform-no-swap-intervals', ['C01', 'C12'],
+  (SL, """            return self.__integrate(G_time_parametrized,
+                                    *elem_trial.space_interval,
+                                    *elem_test.space_interval)""",
+   """            return self.__integrate(G_time_parametrized,
+                                    *elem_test.space_interval,
+                                    *elem_trial.space_interval)"""),
+  rule='R-binding')
+m('c01-dtik-roles', ['C01'],
+  (SL, "        G_time = double_time_integrated_kernel(a, b, c, d)",
+   "        G_time = double_time_integrated_kernel(c, d, a, b)"),
+  rule='R-binding')
+m('c01-exact-time-roles', ['C01'],
+  (SL, """            return spacetime_integrated_kernel(*elem_test.time_interval,
+                                               *elem_trial.time_interval,""",
+   """            return spacetime_integrated_kernel(*elem_trial.time_interval,
+                                               *elem_test.time_interval,"""),
+  rule='R-binding')
+m('c01-straight-dropped-same', ['C01'],
+  (SL, "        if self.pw_exact and elem_test.gamma_space is elem_trial.gamma_space:",
+   "        if self.pw_exact:"), rule='R-straight')
+m('c01-revert-f8', ['C01'],
+  (SL, """        self.pw_exact = pw_exact and isinstance(mesh.gamma_space,
+                                                PiecewisePolygon)""",
+   """        self.pw_exact = pw_exact"""), rule='R-straight')
+m('c01-duffy-symmetric', ['C01'],
+  (SL, "        self.duff_log_log = DuffyScheme2D(self.log_log, symmetric=False)",
+   "        self.duff_log_log = DuffyScheme2D(self.log_log, symmetric=True)"),
+  rule='R-sym')
+m('c01-loglog-mirrored-base', ['C01'],
+  (SL, "        self.log_log = ProductScheme2D(self.log_scheme, self.log_scheme)",
+   "        self.log_log = ProductScheme2D(self.log_scheme, self.log_scheme_m)"),
+  rule='R-sym')
+m('c01-fint1-coef', ['C01'],
+  (SLX, "4 * z * (exp(-(h**2 / (4 * z))) * (h**2 - 12 * z) + 12 * z),",
+   "4 * z * (exp(-(h**2 / (4 * z))) * (h**2 - 6 * z) + 12 * z),"),
+  rule='K4')
+m('c01-fint2-sign', ['C01'],
+  (SLX, "            64 * k * PI_SQRT * z**(3 / 2) * erf(k / (2 * zsqrt)),",
+   "            -64 * k * PI_SQRT * z**(3 / 2) * erf(k / (2 * zsqrt)),"),
+  rule='K4')
+m('c01-fint3-literal', ['C01'],
+  (SLX, "(4 * h - 3 * k) * PI_SQRT", "(4 * h - 2 * k) * PI_SQRT"), rule='K4')
+m('c01-fint4-literal', ['C01'],
+  (SLX, "            (l**4 + 24 * l2 * z) * expi(-(l2 / z4)),",
+   "            (l**4 + 12 * l2 * z) * expi(-(l2 / z4)),"), rule='K4')
+m('c01-translate', ['C01'],
+  (SLX, """        return spacetime_integrated_kernel_4(t_a, t_b, s_a, s_b, x_b - x_a,
+                                             y_a - x_a, y_b - x_a)""",
+   """        return spacetime_integrated_kernel_4(t_a, t_b, s_a, s_b, x_b - x_a,
+                                             y_a - x_b, y_b - x_b)"""),
+  rule='R-translate')
+m('c01-exact-split', ['C01', 'C11'],
+  (SLX, """        return spacetime_integrated_kernel(t_a, t_b, s_a, s_b, x_a, y_a, y_a,
+                                           y_b) + spacetime_integrated_kernel(""",
+   """        return spacetime_integrated_kernel(t_a, t_b, s_a, s_b, x_a, y_a, x_a,
+                                           y_b) + spacetime_integrated_kernel("""),
+  rule='R-partition')
+m('c01-hy-lt-hx-twin', ['C01'],
+  (SL, """            elif h_x > h_y:
+                return self.duff_log_log.mirror_x().integrate(
+                    f, b - h_y, b, c, d)""", """            elif h_y < h_x:
+                return self.duff_log_log.mirror_x().integrate(
+                    f, b - h_y, b, c, d)"""), expect='silent')
+m('c01-fsum-twin', ['C01'],
+  (SLX, "        return 1 / (96 * pi) * fsum([", "        return (1 / (96 * pi)) * sum(["),
+  expect='silent')
+m('c06-order-swapped', ['C06'],
+  (M, """        marked[0].sort(key=lambda elem: elem.level_time)
+        for elem in marked[0]:
+            assert not elem.children
+            self.refine_time(elem)
+
+        # Replace elements marked for space refinement that have been refined
+        # by the time refinemenent.
+        marked_space = []
+        for elem in marked[1]:
+            if elem.children:
+                marked_space.extend(elem.children)
+            else:
+                marked_space.append(elem)
+
+        marked_space.sort(key=lambda elem: elem.level_space)
+        for elem in marked_space:
+            assert not elem.children
+            self.refine_space(elem)""",
+   """        marked[1].sort(key=lambda elem: elem.level_space)
+        for elem in marked[1]:
+            assert not elem.children
+            self.refine_space(elem)
+
+        marked_time = []
+        for elem in marked[0]:
+            if elem.children:
+                marked_time.extend(elem.children)
+            else:
+                marked_time.append(elem)
+
+        marked_time.sort(key=lambda elem: elem.level_time)
+        for elem in marked_time:
+            assert not elem.children
+            self.refine_time(elem)"""), rule='R-mark')
